@@ -256,7 +256,7 @@ def verify(func, spec, name, source=None, timeout_ms=TIMEOUT_MS):
     res = {'function': name, 'obligations': [], 'paths': 0, 'unsupported': None, 'cex': [], 'solver_s': 0.0}
     try:
         short = name.rsplit('.', 1)[-1]
-        if source is None:
+        if source is None and ':SparseVector.' in name:
             source = template_source(short)
         fdef, src = core.get_function_ast(func, source, short)
         p = spec['build']()
@@ -398,6 +398,9 @@ def concretise(pre, m, desc):
     for name, v in pre.vecs.items():
         size = _mval(m, v['size'])
         if size > MAX_REPLAY_SIZE: raise ValueError(f'model size {size} too large to replay')
+        if v['val'] is None:
+            out[name] = {'size': size, 'set': [i for i in range(size) if _mval(m, z3.Select(v['dom'], i))]}
+            continue
         d = {}
         for i in range(size):
             if _mval(m, z3.Select(v['dom'], i)):
@@ -411,6 +414,8 @@ def concretise(pre, m, desc):
         out['other'] = {'array': [float(_mval(m, z3.Select(o.vals, i))) for i in range(n)]}
     elif z3.is_expr(o) and z3.is_real(o):
         out['other'] = {'scalar': float(_mval(m, o))}
+    elif z3.is_expr(o) and z3.is_bool(o):
+        out['other'] = {'scalar': bool(_mval(m, o))}
     for nm, t in getattr(pre, 'extra_inputs', {}).items():
         out[nm] = _mval(m, t)
     return out
